@@ -95,6 +95,12 @@ impl Prop for C09 {
             } else {
                 common::any_input(ctx, &mut rng)
             };
+            if !matches!(kind, "gram" | "seed" | "well-formed") && refscan::scan(&input).iter().any(|t| t.in_asm) {
+                // asm bodies in broken code (an `end` hidden in another conditional branch ...): which
+                // tokens are verbatim asm text cannot be told from outside
+                out.count("skipped_asm_in_invalid_input");
+                continue;
+            }
             // render the input's endings
             let ending_mode = rng.below(4);
             match ending_mode {
@@ -142,7 +148,14 @@ impl Prop for C09 {
             if verbatim_cr {
                 out.count("lf_crlf_comparison_skipped_verbatim_cr");
             } else if o_lf.replace("\r\n", "\n") != o_cr.replace("\r\n", "\n") {
-                out.violate("C09", if fallback { "wrap-fallback" } else { "lf-crlf-results-differ" }, format!("{kind} [{}] results under lf and crlf differ beyond the terminators", base.short()), &input, Some(&base));
+                let class = if fallback {
+                    "wrap-fallback"
+                } else if wf::mlstr_starts_logical_line(&input) {
+                    "mlstr-first-on-logical-line"
+                } else {
+                    "lf-crlf-results-differ"
+                };
+                out.violate("C09", class, format!("{kind} [{}] results under lf and crlf differ beyond the terminators", base.short()), &input, Some(&base));
             }
             // (c) input endings irrelevant
             let lone_cr = input.replace("\r\n", "").contains('\r');
